@@ -280,7 +280,8 @@ From Rumqtt Require Import Router.Model Router.RunDefs.
     marker of that client and (f, i) in between ([quiet]); that offset is the oldest entry of log i
     in the window at the removal if there is one, else the place where the old key's trace continues
     ([nxt] of its last event); the new key's trace starts with the marker, and its next event starts
-    there (a forward AT c0, a jump FROM c0, or a re-SUBSCRIBE at or after c0). *)
+    there (a forward AT c0, a jump FROM c0 FORWARD to the log's base, or a re-SUBSCRIBE at or after
+    c0): no saved cursor is ahead of its log (Router/TraceRunBound.v). *)
 Theorem c08_run_resume_point : forall (cfg : config) (st0 : rstate) (ops : list (list oracle * rop)) (st : rstate) (tr : list dev),
   cfg_ok cfg -> cf_max_outgoing cfg < B62 -> init cfg = Ok st0 -> ops_wf ops ->
   run_d st0 ops = Ok (st, tr) -> Bounded st ->
@@ -292,7 +293,7 @@ Theorem c08_run_resume_point : forall (cfg : config) (st0 : rstate) (ops : list 
     ktrace (L2, f, i) tr = KRes cl c0 :: l2 /\
     match l2 with
     | KFwd off _ :: _ => off = c0
-    | KJump from _ :: _ => from = c0
+    | KJump from to :: _ => from = c0 /\ c0 <= to
     | KSub e :: _ => c0 <= e
     | _ :: _ => False
     | [] => True
@@ -306,7 +307,7 @@ Proof. exact c08_run_resume_point_thm. Qed.
     forwarded with QoS > 0 under (L1, f, i) before the end marker ([qfo]; the QoS of a forward is
     the QoS of the subscription) are [l1 ++ w]: those still in the window are >= the resume point,
     those that left it (acknowledged in order) are < the resume point. *)
-Theorem c08_run_unacked_again_partial : forall (cfg : config) (st0 : rstate) (ops : list (list oracle * rop)) (st : rstate) (tr : list dev),
+Theorem c08_run_unacked_again : forall (cfg : config) (st0 : rstate) (ops : list (list oracle * rop)) (st : rstate) (tr : list dev),
   cfg_ok cfg -> cf_max_outgoing cfg < B62 -> init cfg = Ok st0 -> ops_wf ops ->
   run_d st0 ops = Ok (st, tr) -> Bounded st ->
   forall L1 i : N, always_b (noshare_b L1 i) st0 ops = true ->
@@ -319,10 +320,8 @@ Theorem c08_run_unacked_again_partial : forall (cfg : config) (st0 : rstate) (op
 Proof. exact c08_run_unacked_again_thm. Qed.
 
 (** (c) across the two epochs, same extra hypothesis: an offset acknowledged in the old epoch is
-    below the resume point and is not forwarded in the new epoch — UNLESS the new key's first event
-    after the marker is a jump from c0 to a smaller offset (restored cursor stale with the log's
-    base below it: not excluded by these theorems). *)
-Theorem c08_run_acked_not_again_partial : forall (cfg : config) (st0 : rstate) (ops : list (list oracle * rop)) (st : rstate) (tr : list dev),
+    below the resume point and is NOT forwarded in the new epoch. *)
+Theorem c08_run_acked_not_again : forall (cfg : config) (st0 : rstate) (ops : list (list oracle * rop)) (st : rstate) (tr : list dev),
   cfg_ok cfg -> cf_max_outgoing cfg < B62 -> init cfg = Ok st0 -> ops_wf ops ->
   run_d st0 ops = Ok (st, tr) -> Bounded st ->
   forall L1 i : N, always_b (noshare_b L1 i) st0 ops = true ->
@@ -330,8 +329,7 @@ Theorem c08_run_acked_not_again_partial : forall (cfg : config) (st0 : rstate) (
     tr = ta ++ (id1, (L1, f, i), KEnd cl c0 w) :: tb ++ (id2, (L2, f, i), KRes cl c0) :: tr2 ->
   exists (l1 : list N) (l2 : list kev),
     qfo (ktrace (L1, f, i) ta) = l1 ++ w /\ ktrace (L2, f, i) tr = KRes cl c0 :: l2 /\
-    forall x : N, In x l1 -> x < c0 /\
-      (In x (fwd_offs l2) -> exists (to : N) (l' : list kev), l2 = KJump c0 to :: l' /\ to <= x).
+    forall x : N, In x l1 -> x < c0 /\ ~ In x (fwd_offs l2).
 Proof. exact c08_run_acked_not_again_thm. Qed.
 
 (** QoS 0 and empty windows, no extra hypothesis: if the window holds nothing of log i at the
@@ -345,16 +343,14 @@ Theorem c08_run_no_window_nothing_again : forall (cfg : config) (st0 : rstate) (
   forall x : N, In x (fwd_offs (ktrace (L1, f, i) ta)) -> x < r.
 Proof. exact c08_run_no_window_thm. Qed.
 
-(** ... and whatever a resumed key forwards lies at or after its resume point (same proviso on a
-    backward first jump): a forward of the old epoch, of any QoS, is sent again only if its offset
-    is >= the resume point — for a QoS 0 forward exactly when an older QoS>0 forward of the same
+(** ... and whatever a resumed key forwards lies at or after its resume point: a forward of the
+    old epoch, of any QoS, is sent again only if its offset is >= the resume point — for a QoS 0 forward exactly when an older QoS>0 forward of the same
     key was still unacknowledged. *)
 Theorem c08_run_resumed_from_resume_point : forall (cfg : config) (st0 : rstate) (ops : list (list oracle * rop)) (st : rstate) (tr : list dev),
   cfg_ok cfg -> cf_max_outgoing cfg < B62 -> init cfg = Ok st0 -> ops_wf ops ->
   run_d st0 ops = Ok (st, tr) -> Bounded st ->
   forall (K : dkey) (cl : str) (c0 : N) (l2 : list kev), ktrace K tr = KRes cl c0 :: l2 ->
-  forall y : N, In y (fwd_offs l2) ->
-    c0 <= y \/ exists (to : N) (l' : list kev), l2 = KJump c0 to :: l' /\ to <= y /\ y < c0.
+  forall y : N, In y (fwd_offs l2) -> c0 <= y.
 Proof. exact c08_run_resumed_from_thm. Qed.
 
 (** (d) away-complete: the run ends quiescent with the resumed connection alive: its subscription
@@ -379,7 +375,7 @@ Proof. exact c08_run_away_complete_thm. Qed.
 (** (e), the new end: the epoch created by a Connect with clean_session = true (its link is the
     number of links when the Connect starts) has no resume marker anywhere in the run, and every
     key of it starts with a subscribe marker. *)
-Theorem c08_run_clean_starts_empty_partial : forall (cfg : config) (st0 : rstate) (ops1 : list (list oracle * rop))
+Theorem c08_run_clean_starts_empty : forall (cfg : config) (st0 : rstate) (ops1 : list (list oracle * rop))
     (orc : list oracle) (c : connect_req) (ops2 : list (list oracle * rop)) (st : rstate) (tr : list dev),
   cfg_ok cfg -> cf_max_outgoing cfg < B62 -> init cfg = Ok st0 -> ops_wf (ops1 ++ (orc, OpConnect c) :: ops2) ->
   run_d st0 (ops1 ++ (orc, OpConnect c) :: ops2) = Ok (st, tr) -> Bounded st ->
@@ -389,8 +385,20 @@ Theorem c08_run_clean_starts_empty_partial : forall (cfg : config) (st0 : rstate
   (forall (f : str) (i : N) (a : kev) (l : list kev), ktrace (lenN (r_links s1), f, i) tr = a :: l -> exists e : N, a = KSub e).
 Proof. exact c08_run_clean_starts_empty_thm. Qed.
 
-(** (e), the old end, at the level of one removal: a connection with clean_session = true leaves
-    no end marker — and by (a) a resume marker needs one *)
+(** (e), the old end, at run level: the connection created by a Connect with clean_session = true
+    never produces an end marker (the clean flag of a connection record is the flag of the Connect
+    that created its link: Router/TraceResumeClean.v) — and by (a) a resume marker needs one *)
+Theorem c08_run_clean_disconnect_no_end_marker : forall (cfg : config) (st0 : rstate) (ops1 : list (list oracle * rop))
+    (orc : list oracle) (c : connect_req) (ops2 : list (list oracle * rop)) (st : rstate) (tr : list dev),
+  cfg_ok cfg -> cf_max_outgoing cfg < B62 -> init cfg = Ok st0 -> ops_wf (ops1 ++ (orc, OpConnect c) :: ops2) ->
+  run_d st0 (ops1 ++ (orc, OpConnect c) :: ops2) = Ok (st, tr) -> Bounded st ->
+  cr_clean c = true ->
+  forall (s1 : rstate) (tr1 : list dev), run_d st0 ops1 = Ok (s1, tr1) ->
+  forall (id : N) (f : str) (i : N) (cl : str) (r : N) (w : list N),
+    ~ In (id, (lenN (r_links s1), f, i), KEnd cl r w) tr.
+Proof. exact c08_run_clean_disconnect_no_end_thm. Qed.
+
+(** the same at the level of one removal *)
 Theorem c08_clean_disconnect_no_end_marker : forall (st : rstate) (id : N) (st' : rstate) (c : connection),
   slab_get (r_conns st) id = Some c -> c_clean c = true -> disc_ghost st id st' = [].
 Proof. exact disc_ghost_clean. Qed.
@@ -445,3 +453,22 @@ Theorem c08_run_shared_same_log_witness :
                     (0, 0, (4, 0, 3));
                     (0, 2, (3, 0, 0)); (0, 2, (0, 0, 0)); (0, 2, (0, 1, 0)); (0, 2, (0, 2, 0))].
 Proof. exact share_rewind_witness. Qed.
+
+(** session_present and the trace, as far as the markers go: the ConnAck committed for the
+    connection a Connect creates (the one on the link the Connect made) carries session_present =
+    false if the Connect is clean, and true if the Connect restored a request, i.e. a resume marker
+    of the new link is in the trace.  NOT an equivalence: end/resume markers are per saved
+    NON-SHARED REQUEST, so a saved session without such requests is resumed (session_present =
+    true) without leaving a marker. *)
+Theorem c08_run_session_present_partial : forall (cfg : config) (st0 : rstate) (ops1 : list (list oracle * rop))
+    (orc : list oracle) (c : connect_req) (ops2 : list (list oracle * rop)) (st : rstate) (tr : list dev),
+  cfg_ok cfg -> cf_max_outgoing cfg < B62 -> init cfg = Ok st0 -> ops_wf (ops1 ++ (orc, OpConnect c) :: ops2) ->
+  run_d st0 (ops1 ++ (orc, OpConnect c) :: ops2) = Ok (st, tr) -> Bounded st ->
+  forall (s1 : rstate) (tr1 : list dev), run_d st0 ops1 = Ok (s1, tr1) ->
+  forall (s2 : rstate) (out : rout), step_with s1 orc (OpConnect c) = Ok (s2, out) ->
+  forall (id : N) (o : outgoing) (l : acklog) (sp : bool) (rest : list ack),
+    slab_get (r_obufs s2) id = Some o -> o_link o = lenN (r_links s1) ->
+    slab_get (r_acks s2) id = Some l -> a_committed l = AConnAck id sp :: rest ->
+    (cr_clean c = true -> sp = false) /\
+    ((exists (id2 : N) (f : str) (i : N) (cl : str) (c0 : N), In (id2, (lenN (r_links s1), f, i), KRes cl c0) tr) -> sp = true).
+Proof. exact c08_run_session_present_thm. Qed.
